@@ -162,6 +162,11 @@ InB(p, i) == p \in {"all", "Aall"} \/ (p = "first" /\ i = 1)
 (* amount magnitudes: "unit" = 100 a transaction, "big" = 30 000 000 a transaction (sums beyond 2^31 cents and
    beyond the point where a binary float still resolves 0.01 with an absolute tolerance), "bigcent" = big, and
    where two amounts differ they differ by exactly 0,01                                                        *)
+\* which charges fields a sequence carries: none, 71F alone, 71G alone, both
+Kinds == {"none", "F", "G", "both"}
+HasF(k) == k \in {"F", "both"}
+HasG(k) == k \in {"G", "both"}
+ChToks(k, amt) == (IF HasF(k) THEN <<"71F=USD:" \o amt>> ELSE <<>>) \o (IF HasG(k) THEN <<"71G=USD:" \o amt>> ELSE <<>>)
 Mags == {"unit", "big", "bigcent"}
 Each(mag) == IF mag = "unit" THEN 100 ELSE 30000000
 EachStr(mag) == ToString(Each(mag))
@@ -172,14 +177,14 @@ TotalStr(mag, n, exact, k) == IF exact THEN ToString(Each(mag) * n)
 OtherStr(mag) == IF mag = "unit" THEN "90" ELSE IF mag = "big" THEN "29999990" ELSE ToString(Each(mag)) \o ".01"
 Base107 == [ntx |-> 1, e23 |-> "A", cr |-> "A", f21E |-> "none", f26T |-> "none", f77B |-> "none", f71A |-> "none",
             f52 |-> "none", ip |-> "none", code |-> "AUTH", info |-> FALSE, f72 |-> FALSE,
-            chB |-> FALSE, chC |-> FALSE, f33 |-> "none", f36 |-> FALSE, sumok |-> TRUE, cur2 |-> "same", mag |-> "unit"]
+            chB |-> "none", chC |-> "none", f33 |-> "none", f36 |-> FALSE, sumok |-> TRUE, cur2 |-> "same", mag |-> "unit"]
 Facts107 ==
      {[Base107 EXCEPT !.ntx = n, !.e23 = a, !.cr = b] : n \in {1, 2}, a, b \in Place}
   \cup {[Base107 EXCEPT !.ntx = 2, !.f21E = a, !.cr = b] : a \in {"none", "A", "first", "all", "Aall"}, b \in {"A", "all", "first"}}
   \cup {[Base107 EXCEPT !.ntx = 2, !.f26T = a, !.f77B = b] : a, b \in {"none", "A", "first", "Aall"}}
   \cup {[Base107 EXCEPT !.ntx = 2, !.f71A = a, !.f52 = b, !.ip = c] : a, b, c \in {"none", "A", "first", "Aall"}}
   \cup {[Base107 EXCEPT !.code = a, !.info = b, !.f72 = c] : a \in {"AUTH", "NAUT", "OTHR", "RTND", "ZZZZ"}, b, c \in BOOLEAN}
-  \cup {[Base107 EXCEPT !.chB = a, !.chC = b] : a, b \in BOOLEAN}
+  \cup {[Base107 EXCEPT !.chB = a, !.chC = b] : a, b \in Kinds}
   \cup {[Base107 EXCEPT !.f33 = a, !.f36 = b] : a \in {"none", "same", "diffcur", "diffamt"}, b \in BOOLEAN}
   \cup {[Base107 EXCEPT !.ntx = n, !.sumok = a, !.cur2 = b] : n \in {2, 3}, a \in BOOLEAN, b \in {"same", "diff", "lastdiff"}}
   \cup {[Base107 EXCEPT !.ntx = n, !.sumok = a, !.mag = m] : n \in {2, 3}, a \in BOOLEAN, m \in Mags}
@@ -190,10 +195,10 @@ Expected107(f) ==
   \cup (IF \E p \in {f.f21E, f.f26T, f.f77B, f.f71A, f.f52, f.ip} : InA(p) /\ InAnyB(p) THEN {"D73"} ELSE {})
   \cup (IF (InA(f.f21E) /\ ~InA(f.cr)) \/ (\E i \in 1..f.ntx : InB(f.f21E, i) /\ ~InB(f.cr, i)) THEN {"D77"} ELSE {})
   \cup (IF InA(f.e23) /\ ((f.code = "RTND") # f.f72) THEN {"C82"} ELSE {})
-  \cup (IF f.chB # f.chC THEN {"D79"} ELSE {})
+  \cup (IF HasF(f.chB) # HasF(f.chC) \/ HasG(f.chB) # HasG(f.chC) THEN {"D79"} ELSE {})
   \cup (IF f.f33 = "same" THEN {"D21"} ELSE {})
   \cup (IF (f.f33 = "diffcur" /\ ~f.f36) \/ (f.f33 # "diffcur" /\ f.f36) THEN {"D75"} ELSE {})
-  \cup (IF ~f.sumok \/ f.chB THEN {"D80"} ELSE {})
+  \cup (IF ~f.sumok \/ f.chB # "none" THEN {"D80"} ELSE {})
                                              \* with charges in sequence B the sum must be in field 19 (absent here: D80);
                                              \* no field 19 here: the settlement amount itself must be the sum (D80);
                                              \* C01 concerns field 19, which these vectors never carry
@@ -209,7 +214,7 @@ Tx107(f, i) ==
   \o (IF i = 1 /\ f.f33 = "same" THEN <<"33B=USD:" \o EachStr(f.mag)>> ELSE IF i = 1 /\ f.f33 = "diffcur" THEN <<"33B=EUR:90">>
       ELSE IF i = 1 /\ f.f33 = "diffamt" THEN <<"33B=USD:" \o OtherStr(f.mag)>> ELSE <<>>)
   \o Opt107(f.f71A, "71A=SHA", FALSE, i)
-  \o (IF f.chB THEN <<"71F=USD:1", "71G=USD:1">> ELSE <<>>)
+  \o ChToks(f.chB, "1")
   \o (IF i = 1 /\ f.f36 THEN <<"36">> ELSE <<>>)
 Build107(f) ==
   <<"20">> \o Opt107(f.e23, "23E=" \o f.code \o (IF f.info THEN "/INFO" ELSE ""), TRUE, 0) \o Opt107(f.f21E, "21E", TRUE, 0)
@@ -218,14 +223,14 @@ Build107(f) ==
   \o (IF f.f72 THEN <<"72">> ELSE <<>>)
   \o Tx107(f, 1) \o (IF f.ntx >= 2 THEN Tx107(f, 2) ELSE <<>>) \o (IF f.ntx >= 3 THEN Tx107(f, 3) ELSE <<>>)
   \o <<"32B=USD:" \o TotalStr(f.mag, f.ntx, f.sumok, 7)>>
-  \o (IF f.chC THEN <<"71F=USD:" \o ToString(f.ntx), "71G=USD:" \o ToString(f.ntx)>> ELSE <<>>)
+  \o ChToks(f.chC, ToString(f.ntx))
 
 (* ================================ MT104 ================================== *)
 (* direct debit / request for direct debit: like MT107 plus the RFDD regime (C1, C12), an optional      *)
 (* settlement sequence C and field 19                                                                     *)
 Base104 == [ntx |-> 1, e23 |-> "A", codeA |-> "AUTH", codeB |-> "AUTH", info |-> FALSE, cr |-> "A", f21E |-> "none",
             f26T |-> "none", f77B |-> "none", f71A |-> "none", f52 |-> "none", ip |-> "none", f72 |-> FALSE, f21R |-> FALSE,
-            seqC |-> TRUE, chB |-> FALSE, chC |-> FALSE, f33 |-> "none", f36 |-> FALSE, sumok |-> TRUE, cur2 |-> "same",
+            seqC |-> TRUE, chB |-> "none", chC |-> "none", f33 |-> "none", f36 |-> FALSE, sumok |-> TRUE, cur2 |-> "same",
             f19 |-> "none", mag |-> "unit"]
 Facts104 ==
      {[Base104 EXCEPT !.ntx = n, !.e23 = a, !.codeA = c, !.cr = b, !.seqC = d, !.f21R = r] :
@@ -236,8 +241,8 @@ Facts104 ==
   \cup {[Base104 EXCEPT !.codeA = a, !.info = b, !.f72 = c] : a \in {"AUTH", "NAUT", "OTHR", "RTND", "RFDD", "ZZZZ"}, b, c \in BOOLEAN}
   \cup {[Base104 EXCEPT !.e23 = "all", !.ntx = 2, !.codeB = a, !.info = b] : a \in {"AUTH", "OTHR", "RFDD", "RTND", "ZZZZ"}, b \in BOOLEAN}
   \cup {[Base104 EXCEPT !.e23 = "Aall", !.codeA = "RFDD", !.seqC = FALSE, !.f21R = r, !.f21E = a, !.f52 = b, !.chB = c] :
-         r, c \in BOOLEAN, a, b \in {"none", "first"}}
-  \cup {[Base104 EXCEPT !.chB = a, !.chC = b, !.seqC = c] : a, b, c \in BOOLEAN}
+         r \in BOOLEAN, c \in {"none", "both"}, a, b \in {"none", "first"}}
+  \cup {[Base104 EXCEPT !.chB = a, !.chC = b, !.seqC = c] : a, b \in Kinds, c \in BOOLEAN}
   \cup {[Base104 EXCEPT !.f33 = a, !.f36 = b] : a \in {"none", "same", "diffcur", "diffamt"}, b \in BOOLEAN}
   \cup {[Base104 EXCEPT !.ntx = n, !.sumok = a, !.cur2 = b, !.f19 = c] : n \in {2, 3}, a \in BOOLEAN, b \in {"same", "diff", "lastdiff"}, c \in {"none", "ok", "bad"}}
   \cup {[Base104 EXCEPT !.ntx = n, !.sumok = a, !.f19 = c, !.mag = m] : n \in {2, 3}, a \in BOOLEAN, c \in {"none", "ok", "bad"}, m \in Mags}
@@ -245,7 +250,7 @@ Facts104 ==
 Expected104(f) ==
   LET a23 == InA(f.e23)
       rfdd == a23 /\ f.codeA = "RFDD"
-      chC == f.chC /\ f.seqC
+      chC == IF f.seqC THEN f.chC ELSE "none"
       f19 == IF f.seqC THEN f.f19 ELSE "none"
   IN (IF (rfdd /\ ~InEveryB(f.e23, f.ntx)) \/ (a23 /\ ~rfdd /\ InAnyB(f.e23)) \/ (~a23 /\ ~InEveryB(f.e23, f.ntx))
       THEN {"C75"} ELSE {})
@@ -253,13 +258,13 @@ Expected104(f) ==
   \cup (IF \E p \in {f.f21E, f.f26T, f.f77B, f.f71A, f.f52, f.ip} : InA(p) /\ InAnyB(p) THEN {"D73"} ELSE {})
   \cup (IF (InA(f.f21E) /\ ~InA(f.cr)) \/ (\E i \in 1..f.ntx : InB(f.f21E, i) /\ ~InB(f.cr, i)) THEN {"D77"} ELSE {})
   \cup (IF (a23 /\ f.codeA = "RTND") # f.f72 THEN {"C82"} ELSE {})
-  \cup (IF f.chB # chC THEN {"D79"} ELSE {})
+  \cup (IF HasF(f.chB) # HasF(chC) \/ HasG(f.chB) # HasG(chC) THEN {"D79"} ELSE {})
   \cup (IF f.f33 = "same" THEN {"D21"} ELSE {})
   \cup (IF (f.f33 = "diffcur" /\ ~f.f36) \/ (f.f33 # "diffcur" /\ f.f36) THEN {"D75"} ELSE {})
   \cup (IF f.seqC /\ ((f.sumok /\ f19 # "none") \/ (~f.sumok /\ f19 = "none")) THEN {"D80"} ELSE {})
   \cup (IF f19 = "bad" THEN {"C01"} ELSE {})
   \cup (IF f.ntx >= 2 /\ f.cur2 # "same" THEN {"C02"} ELSE {})
-  \cup (IF rfdd /\ (InAnyB(f.f21E) \/ InAnyB(f.cr) \/ InAnyB(f.f52) \/ f.chB \/ f.seqC) THEN {"C96"} ELSE {})
+  \cup (IF rfdd /\ (InAnyB(f.f21E) \/ InAnyB(f.cr) \/ InAnyB(f.f52) \/ f.chB # "none" \/ f.seqC) THEN {"C96"} ELSE {})
   \cup (IF ~rfdd /\ (f.f21R \/ ~f.seqC) THEN {"C96"} ELSE {})
   \cup (IF (a23 /\ f.codeA = "ZZZZ") \/ (InAnyB(f.e23) /\ f.codeB \notin {"AUTH", "NAUT", "OTHR"}) THEN {"T47"} ELSE {})
   \cup (IF f.info /\ ((a23 /\ f.codeA # "OTHR") \/ (InAnyB(f.e23) /\ f.codeB # "OTHR")) THEN {"D81"} ELSE {})
@@ -271,7 +276,7 @@ Tx104(f, i) ==
   \o (IF i = 1 /\ f.f33 = "same" THEN <<"33B=USD:" \o EachStr(f.mag)>> ELSE IF i = 1 /\ f.f33 = "diffcur" THEN <<"33B=EUR:90">>
       ELSE IF i = 1 /\ f.f33 = "diffamt" THEN <<"33B=USD:" \o OtherStr(f.mag)>> ELSE <<>>)
   \o Opt107(f.f71A, "71A=SHA", FALSE, i)
-  \o (IF f.chB THEN <<"71F=USD:1", "71G=USD:1">> ELSE <<>>)
+  \o ChToks(f.chB, "1")
   \o (IF i = 1 /\ f.f36 THEN <<"36">> ELSE <<>>)
 Build104(f) ==
   <<"20">> \o (IF f.f21R THEN <<"21R">> ELSE <<>>)
@@ -284,7 +289,7 @@ Build104(f) ==
       THEN <<"32B=USD:" \o TotalStr(f.mag, f.ntx, f.sumok, 7)>>
            \o (IF f.f19 = "ok" THEN <<"19=" \o TotalStr(f.mag, f.ntx, TRUE, 0)>>
                ELSE IF f.f19 = "bad" THEN <<"19=" \o TotalStr(f.mag, f.ntx, FALSE, 3)>> ELSE <<>>)
-           \o (IF f.chC THEN <<"71F=USD:1", "71G=USD:1">> ELSE <<>>)
+           \o ChToks(f.chC, "1")
       ELSE <<>>)
 
 (* ================================ MT110 ================================== *)
